@@ -736,6 +736,11 @@ func (env *Env) callExpr(e *ECall) V {
 		argc(1)
 		v := env.eval(e.Args[0])
 		return boolV(sx("<", v.T[0], env.oldAc))
+	case "live":
+		// live(x): the allocation behind x exists in the state where this is evaluated
+		argc(1)
+		v := env.eval(e.Args[0])
+		return boolV(and(sx(">=", v.T[0], "0"), sx("<", v.T[0], env.cur.ac)))
 	case "samebase", "aliases":
 		argc(2)
 		a, b := env.eval(e.Args[0]), env.eval(e.Args[1])
@@ -814,6 +819,12 @@ func (env *Env) callExpr(e *ECall) V {
 		ch := env.eval(e.Args[0])
 		arr := fc.heapGet(env.cur, "ghost:closed", fieldSort(sBool))
 		return boolV(sx("select", arr, ch.T[0]))
+	case "oncedone":
+		// oncedone(&x.once): the sync.Once has fired
+		argc(1)
+		o := env.eval(e.Args[0])
+		arr := fc.heapGet(env.cur, "ghost:oncedone", fieldSort(sBool))
+		return boolV(sx("select", arr, o.T[0]))
 	case "recvs":
 		// recvs(ch): how many receives on ch this goroutine has completed
 		argc(1)
@@ -1220,7 +1231,13 @@ func (env *Env) resolveTarget(text string) []modTarget {
 		if e.Name == "*" {
 			return []modTarget{structAll(p)}
 		}
-		loc := fc.locOf(p)
+		var loc *Loc
+		if !isPointer(p.Ty) && p.Loc == nil && isStruct(p.Ty) {
+			// x.f.g where x.f is a struct value stored inside the object x points to
+			loc = env.withStateLoc(e.X)
+		} else {
+			loc = fc.locOf(p)
+		}
 		path, ft, ok := fieldPath(loc.Ty, e.Name)
 		if !ok {
 			panic(specErr("modifies: no field %s in %s", e.Name, loc.Ty))
@@ -1293,6 +1310,11 @@ func (env *Env) resolveTarget(text string) []modTarget {
 				keys, srts, oid, _ := env.ghostKeys(g, o)
 				return []modTarget{{kind: "ghost", keys: keys, sorts: srts, ref: oid}}
 			}
+			if id.Name == "oncedone" && len(e.Args) == 1 {
+				o := env.withState(env.old, func() V { return env.eval(e.Args[0]) })
+				fc.keySort["ghost:oncedone"] = fieldSort(sBool)
+				return []modTarget{{kind: "ghost", keys: []string{"ghost:oncedone"}, sorts: []string{sBool}, ref: o.T[0]}}
+			}
 			if id.Name == "recvs" && len(e.Args) == 1 {
 				ch := env.withState(env.old, func() V { return env.eval(e.Args[0]) })
 				fc.keySort["ghost:recvs"] = fieldSort(sBV(64))
@@ -1336,6 +1358,31 @@ func (env *Env) resolveTarget(text string) []modTarget {
 		}
 	}
 	panic(specErr("unsupported modifies target %q", text))
+}
+
+// withStateLoc: the location (object, component prefix) denoted by a chain of field selections that starts at a pointer.
+func (env *Env) withStateLoc(x Expr) *Loc {
+	fc := env.fc
+	sel, ok := x.(*ESel)
+	if !ok {
+		panic(specErr("modifies: %s does not denote a field of an object", exprString(x)))
+	}
+	base := env.withState(env.old, func() V { return env.eval(sel.X) })
+	var loc *Loc
+	if isPointer(base.Ty) || base.Loc != nil {
+		loc = fc.locOf(base)
+	} else {
+		loc = env.withStateLoc(sel.X)
+	}
+	path, ft, ok := fieldPath(loc.Ty, sel.Name)
+	if !ok {
+		panic(specErr("modifies: no field %s in %s", sel.Name, loc.Ty))
+	}
+	pre := loc.Pre
+	for _, i := range path {
+		pre += fmt.Sprintf("f%d_", i)
+	}
+	return &Loc{Kind: locField, S: loc.S, Pre: pre, Ref: loc.Ref, Ty: ft}
 }
 
 func (fc *FnCtx) havocTarget(env *Env, old *State, text string, pos token.Pos) {
